@@ -721,6 +721,8 @@ def run_C20(res, tier, seed, t_end, bad):
     if not res.findings:
         import clientlevel
         clientlevel.run_C20(res, tier, seed, t_end)
+        if not res.findings:
+            clientlevel.run_C20_asyncio(res, tier, seed, t_end)
 
 
 def run_C13(res, tier, seed, t_end, bad):
